@@ -646,9 +646,9 @@ func c08Dispatch(c *fw.Ctx, env *t8Env, cs c08Case) {
 
 func init() {
 	fw.Register(&fw.Prop{
-		ID:    "C08",
-		Level: "exploration",
-		Rule: "6 datasets (typed dims x int, y bool, z string, each sometimes absent; part flushed) × WHERE: 10 atoms (=, <>, <, >, IN, LIKE, IS NULL, IS NOT NULL, bool =, LEN()=) and their negations as units, every unit and every AND/OR pair of units (820 predicates; quick: every third) × 3 query shapes (native, GROUP BY x, GROUP BY y with period(2s)), judged by a three-valued evaluator written for the harness (comparisons against an absent dim are unknown = unconstrained) through the interval oracle: rows must contain exactly the satisfying points (identified by power-of-two values) and aggregates recomputed from them; HAVING: 20 value predicates (comparisons, + - * /, selected / unselected / sometimes-unset / never-set operands) × 4 select lists × 3 shapes against the HAVING-free query with the operands added, no _having column, same width; IN (SELECT …): 12 sub/outer pairs vs the literal list of distinct values; FROM (subquery): 20 outer×inner pairs vs re-aggregation of the materialised inner rows; non-trivial = filter keeps some but not all",
+		ID:          "C08",
+		Level:       "exploration",
+		Rule:        "6 datasets (typed dims x int, y bool, z string, each sometimes absent; part flushed) × WHERE: 10 atoms (=, <>, <, >, IN, LIKE, IS NULL, IS NOT NULL, bool =, LEN()=) and their negations as units, every unit and every AND/OR pair of units (820 predicates; quick: every third) × 3 query shapes (native, GROUP BY x, GROUP BY y with period(2s)), judged by a three-valued evaluator written for the harness (comparisons against an absent dim are unknown = unconstrained) through the interval oracle: rows must contain exactly the satisfying points (identified by power-of-two values) and aggregates recomputed from them; HAVING: 20 value predicates (comparisons, + - * /, selected / unselected / sometimes-unset / never-set operands) × 4 select lists × 3 shapes against the HAVING-free query with the operands added, no _having column, same width; IN (SELECT …): 12 sub/outer pairs vs the literal list of distinct values; FROM (subquery): 20 outer×inner pairs vs re-aggregation of the materialised inner rows; non-trivial = filter keeps some but not all",
 		Assumptions: []string{"a comparison against an absent dimension leaves the point unconstrained", "HAVING rows in which an operand is unset are unconstrained"},
 		Shards:      func(tier string) int { return 12 },
 		Budget:      func(tier string) time.Duration { return 30 * time.Minute },
